@@ -1,5 +1,5 @@
 (* C19 - c-revision: compilations agree; the constraint system characterises acceptance by the revised ranking. *)
-From InfOCF Require Import Core Tol Form Model Crev ThmCrev.
+From InfOCF Require Import Core Tol Form Model Crev ThmCrev ThmCrevInc.
 
 (* the literal bit-mask path of the fast / incremental compilation classifies worlds like the general path *)
 Theorem C19_mask_path_is_evaluation : forall c w, classify_fast c w = classify c w.
@@ -21,6 +21,20 @@ Theorem C19_csp_solutions_are_exactly_the_accepting_parameters : forall cs pr gp
   csp_holds gp gm (compile_alt cs pr) = forallb (accepts_star cs pr gp gm) cs.
 Proof. exact csp_iff_all_accepted. Qed.
 Print Assumptions C19_csp_solutions_are_exactly_the_accepting_parameters.
+(* the incremental model (per-world accepted / rejected index sets, updated on add and remove): after ANY sequence of
+   additions and removals the registered indices are distinct, its compilation is the fresh reference compilation of the
+   conditionals it currently holds (index lists compared sorted), and the two constraint systems have the same solutions *)
+Theorem C19_incremental_equals_fresh : forall pr ops, let m := fold_left (cm_step pr) ops (cm_empty pr) in
+  norm_c (fst (cm_compile pr m)) = norm_c (fst (compile_alt (reg m) pr)) /\ norm_c (snd (cm_compile pr m)) = norm_c (snd (compile_alt (reg m) pr)).
+Proof. exact incremental_equals_fresh. Qed.
+Print Assumptions C19_incremental_equals_fresh.
+Theorem C19_incremental_same_solutions : forall pr ops gp gm, let m := fold_left (cm_step pr) ops (cm_empty pr) in
+  csp_holds gp gm (cm_compile pr m) = csp_holds gp gm (compile_alt (reg m) pr).
+Proof. exact incremental_same_solutions. Qed.
+Print Assumptions C19_incremental_same_solutions.
+Theorem C19_incremental_indices_distinct : forall pr ops, NoDup (map ckey (reg (fold_left (cm_step pr) ops (cm_empty pr)))).
+Proof. exact incremental_registry_distinct. Qed.
+Print Assumptions C19_incremental_indices_distinct.
 
 Definition pr2 : prior := [([false;false],0);([false;true],1);([true;false],0);([true;true],1)].
 Definition c1 := {| ckey := 4; ccons := FVar 1; cante := FVar 0 |}.
